@@ -478,10 +478,10 @@ fn output_selector(
             let dataset = store.dataset(*set_handle).expect("resource must exist");
             ann_out += &format!(
                 "{{ \"id\": \"{}\", \"type\": \"Dataset\" }}",
-                into_iri(
+                json_escape(&into_iri(
                     dataset.id().expect("dataset must have ID"),
-                    &config.default_resource_iri
-                ),
+                    &config.default_set_iri
+                )),
             );
         }
         Selector::CompositeSelector(selectors) => {
